@@ -96,16 +96,14 @@ func (h *mergeHeap) Pop() interface{} {
 func merge(src []*hintFileReader, dst string, ct *CollisionTable, hintState *int, forGC bool) (idx *hintFileIndex, err error) {
 	n := len(src)
 	datasize := uint32(0)
-	hp := make([]*mergeReader, n)
+	hp := make([]*mergeReader, 0, n)
 	for i := 0; i < n; i++ {
 		err := src[i].open()
 		if err != nil {
 			logger.Errorf("%s", err.Error())
 			return nil, err
 		}
-		hp[i] = &mergeReader{src[i], nil}
-		hp[i].curr, err = src[i].next()
-		hp[i].curr.Pos.ChunkID = src[i].chunkID
+		curr, err := src[i].next()
 		if err != nil {
 			logger.Errorf("%s", err.Error())
 			return nil, err
@@ -113,6 +111,12 @@ func merge(src []*hintFileReader, dst string, ct *CollisionTable, hintState *int
 		if src[i].datasize > datasize {
 			datasize = src[i].datasize
 		}
+		if curr == nil {
+			// a hint file without items contributes nothing to the merge
+			continue
+		}
+		curr.Pos.ChunkID = src[i].chunkID
+		hp = append(hp, &mergeReader{src[i], curr})
 	}
 	var w *hintFileWriter
 	if !Conf.NoMerged && !forGC {
@@ -143,8 +147,8 @@ func merge(src []*hintFileReader, dst string, ct *CollisionTable, hintState *int
 			heap.Push(&h, mr)
 		}
 	}
-	for _, mr := range hp {
-		mr.r.close()
+	for _, r := range src {
+		r.close()
 	}
 	mw.flush()
 	if mw.w != nil {
